@@ -23,7 +23,10 @@ def json_lines(r, tag: str, limit: int | None = None, rng=None, dedupe: bool = F
     else:
         lines, total = tagged_lines(r, tag, limit, rng, dedupe)
     json_lines.last_total = total
-    return [json.loads(json.loads(line)[len(tag):]) for line in lines]
+    def body(line):
+        b = json.loads(line)[len(tag):]
+        return b if b.startswith("{") else b.partition("|")[2]       # [signature "|"] json
+    return [json.loads(body(line)) for line in lines]
 
 
 def tla_set(xs) -> str:
@@ -132,6 +135,8 @@ def solo_sequences(r: TlcResult, limit: int | None = None, rng=None):
     # the input sequences on which a monitor is false in the model: always executed on the code as well
     vseqs = [(o["c"], o["ins"]) for o in json_lines(r, "VSOLO")]
     seqs = [(o["c"], o["ins"]) for o in json_lines(r, "SOLO", limit, rng)]
+    from common import tagged_lines
+    solo_sequences.signatures = tagged_lines.signatures
     viol = [parse_tla(ch) for ch in tla_chunks(r.out, "MODELVIOLATION")]
     solo_sequences.violating = vseqs
     return cfgs, seqs, viol
